@@ -24,7 +24,8 @@ SHRINK_LISTS = ["sa", "sb"]
 
 
 def gen_params(rng, tier):
-    spec = gen.gen_spec(rng, rng.randint(0, 3))
+    # a third of the cases: the naming matrix of one container (own quantity / bin content / flows named or not)
+    spec = gen.gen_name_matrix_spec(rng) if rng.random() < 0.3 else gen.gen_spec(rng, rng.randint(0, 3))
     return {"spec": spec,
             "sa": [[d, w] for d, w in gen.gen_stream(rng, spec, rng.randint(0, 9))],
             "sb": [[d, w] for d, w in gen.gen_stream(rng, spec, rng.randint(0, 6))],
